@@ -669,6 +669,7 @@ pub fn c05(run: &mut Run) {
     run.require_label("c05_model", "resume", 0.1);
     run.require_label("c05_model", "blend_after_pause_discarded", 0.05);
     run.require_label("c05_model", "pause", 0.2);
+    c05_long_histories(run);
     crate::fuzzdrv::campaign(run, "fz_c05", 14_400_000);
     // exhaustive enumeration of all histories up to a depth over a 9-letter alphabet
     let depth: u32 = if run.tier == mv_engine::Tier::Quick { 6 } else { 8 };
@@ -1115,4 +1116,49 @@ pub fn c06(run: &mut Run) {
         c06_train_judge,
     );
     crate::fuzzdrv::campaign(run, "fz_c06", 19_200_000);
+}
+
+/// Very long histories: an interrupted animation is remembered, then other animated states are entered
+/// N times in a row (N either side of 2^8 and 2^16, the widths a generation counter or index could be
+/// narrowed to), then the interrupted state is entered again - a fresh blend, not a resume.
+fn c05_long_histories(run: &mut Run) {
+    let counts: [u32; 12] = [254, 255, 256, 257, 258, 511, 65_534, 65_535, 65_536, 65_537, 65_538, 131_072];
+    run.enumerate(
+        "c05_long_history",
+        "state 0 (animated) advanced, interrupted by an un-animated state, then N entries into the two other animated states (with an occasional 1/512 s advance) for N in {254..258, 511, 65534..65538, 131072}, then state 0 again and a few advances; the blend/pause/resume model and the twin timelines are compared after EVERY operation as in c05_model; non-trivial = every history; every index a distinct N",
+        counts.len() as u64,
+        1,
+        true,
+        move |range, eo| {
+            for idx in range {
+                let n = counts[idx as usize];
+                let kf = |pos: f32, a: f32, c: i32| KfDesc { pos, a: Some(a), b: None, c: Some(c), d: None, ez: None };
+                let tl = |cycle: f32, a0: f32, a1: f32| TlDesc { timing: Timing { cycle, delay: 0.0, repeat: Rep::None, reverse: false }, default_ez: Ez::Linear, kfs: vec![kf(0.0, a0, 0), kf(1.0, a1, 1000)], order: 0 };
+                let desc = AnimDesc {
+                    states: vec![Some(vec![tl(4.0, 0.0, 64.0)]), Some(vec![tl(2.0, 10.0, 20.0)]), Some(vec![tl(8.0, -5.0, 5.0)]), None, None],
+                    initial_state: 3,
+                    initial_values: Vals { a: 1.0, b: 2.0, c: 3, d: 4 },
+                    builder_order: 0,
+                };
+                let mut ops = vec![AOp::Set(0), AOp::Adv(Step::Grid(512)), AOp::Set(3)];
+                for k in 0..n {
+                    ops.push(AOp::Set(if k % 2 == 0 { 1 } else { 2 }));
+                    if k % 1024 == 5 {
+                        ops.push(AOp::Adv(Step::Grid(1)));
+                    }
+                }
+                ops.extend([AOp::Set(0), AOp::Adv(Step::Grid(256)), AOp::Adv(Step::Grid(1024)), AOp::Set(4), AOp::Set(0), AOp::Adv(Step::Grid(512))]);
+                let case = HistCase { desc, ops };
+                let asserts = Asserts { c04: true, c05: true, c07: true, c08: false };
+                let mut obs = Obs::default();
+                if let Err(e) = run_history(&case, &asserts, &mut obs) {
+                    return Err((serde_json::json!({"index": idx, "entries_into_other_animated_states": n}), format!("{n} entries into other animated states between the interruption and the return: {e}")));
+                }
+                eo.evaluated += obs.judged;
+                eo.nontrivial += 1;
+                eo.sample(|| serde_json::json!({"entries_into_other_animated_states": n, "operations": case.ops.len()}));
+            }
+            Ok(())
+        },
+    );
 }
